@@ -152,14 +152,13 @@ theorem lock_protocol_ok :
 /-- methods of `Tx` other than Commit/Rollback that may write a shared location, with what they may write.
 Everything else — every read, and every mutating call, which only appends to the transaction's own
 pending list — writes nothing shared (**ReadPure**). The listed ones:
-  * the five key/value reads: in sparse mode they sort `db.BPTreeRootIdxes` in place (finding D-SORTFID);
+  * (until fix 797db8f the sparse-mode scans were listed too: they sorted `db.BPTreeRootIdxes` in place,
+    finding D-SORTFID; they sort a copy now, and the analysis charges a sort to the call site only when
+    the slice is not one the caller made);
   * `SMove*`: mutate the committed set index (finding D-SMOVE);
   * `ZRangeByRank`: an imprecision of the flow-insensitive analysis — `GetByRankRange(start, end, remove)`
     contains the removal code, which `ZRangeByRank` disables by passing `remove = false`. -/
 def impureTxMethods : List (String × List String) := [
-  ("Get", ["sort:BPTreeRootIdxWrapper"]), ("GetAll", ["sort:BPTreeRootIdxWrapper"]),
-  ("PrefixScan", ["sort:BPTreeRootIdxWrapper"]), ("PrefixSearchScan", ["sort:BPTreeRootIdxWrapper"]),
-  ("RangeScan", ["sort:BPTreeRootIdxWrapper"]),
   ("SMoveByOneBucket", ["Set.M{}", "map{}"]), ("SMoveByTwoBuckets", ["Set.M{}", "map{}"]),
   ("ZRangeByRank", ["SortedSet.Dict{}", "SortedSet.length", "SortedSet.level", "SortedSet.tail", "SortedSetLevel.forward",
     "SortedSetLevel.span", "SortedSetNode.backward"])]
@@ -170,10 +169,11 @@ theorem read_pure_except :
     (effects.filter fun p => p.1 == "Tx" && p.2.1 != "Commit" && p.2.1 != "Rollback" && !p.2.2.2.isEmpty) = [] := by
   decide
 
-/-- package-level state written on the commit path: the B+ tree writer's `queue` (two databases in one
-process share it: finding D-QUEUE); `Begin` touches the transaction-id registry under its own mutex -/
+/-- package-level state written on the commit path: none (the B+ tree writer's `queue`, shared by all
+databases of the process, was finding D-QUEUE, fixed in 0158d51); `Begin` touches the transaction-id
+registry under its own mutex -/
 theorem globals_ok :
-    (eff "Tx" "Commit").2 = ["queue"] ∧ eff "DB" "Begin" = ([], ["txIDNodes{}"]) ∧
+    (eff "Tx" "Commit").2 = [] ∧ eff "DB" "Begin" = ([], ["txIDNodes{}"]) ∧
     (lck "DB" "Begin").2 = ["txIDNodesMu.Lock", "txIDNodesMu.Unlock"] := by
   decide
 
